@@ -107,9 +107,9 @@ NOTES = {
  "C06-C": "Caught by C06.gnutls_verify_sha_pem.release -- a unit written AFTER reading this seed's description and before its first evaluation (the GnuTLS model records the release of the DER signature it hands out; exactly one release on every exit). Without it the change would have been missed: leaks are not decided in general.",
  "C02-C": "Caught by C02 (the TOP unit's admission clause); the C19 check is silent for the same reason as C19-B.",
  "C09-D": "Reported under C09 and C01; the C14 list does not contain __check_key_bits' own unit (its clause 'a refusal carries a message' sits in the C09/C01 contracts).",
- "C03-C": "NOT DECIDED (exit 2): the change calls strrchr, which the units' libc model does not have; cbmc's built-in loops over a string of symbolic length and the unit times out.",
- "C11-C": "NOT DECIDED (exit 2): strpbrk is not modelled. Even with a model the defect (scanning a buffer that is not yet terminated) is a read of uninitialised heap bytes, which cbmc's checks do not flag.",
- "C18-C": "NOT DECIDED (exit 2): strchr / strstr on a PEM of symbolic length are not modelled (time-out). The write into the shared key's PEM would violate the frame clause of the provider entry.",
+ "C03-C": "First NOT DECIDED (the change calls strrchr, which the libc model lacked: time-out in cbmc's built-in loop). A loop-free model of the searching functions was added; the C03 / C01 clause 'the signature judged is the text right after the second dot' refutes the change.",
+ "C11-C": "NOT DECIDED: first because strpbrk was not modelled; with the model the loop contract of the rewritten function no longer applies, and the defect itself (scanning a buffer that is not yet terminated) is a read of uninitialised heap bytes, which cbmc's checks do not flag.",
+ "C18-C": "First NOT DECIDED (strchr / strstr on a PEM of symbolic length: time-out). With the loop-free models the write into the shared key's PEM violates the frame clause of the provider entry.",
  "C08-D": "Caught by the completeness unit: ERR_peek_error was modelled (queue possibly non-empty) after reading this seed's description and before its evaluation.",
  "C05-B": "Reported under C10 (time-claim clauses carry the C10 label); the C05 check itself is silent.",
  "C06-B": "Reported under C14 (message handling clauses).",
